@@ -22,7 +22,7 @@ def main():
     length = int(sys.argv[3]) if len(sys.argv) > 3 else 40
     ctx = common.Ctx("E2dbg", "quick", seed)
     with common.CoqLock():
-        ok, log = common.coq_make(["model/GraphDump.vo"])
+        ok, log = common.coq_make(["model/GraphDump.vo", "model/GraphTree.vo"])
     assert ok, log
     traces = []
     for i in range(n):
@@ -43,7 +43,7 @@ def main():
     for b in bad[:1]:
         tr = [t for t in traces[b] if t[0][0] != "dispatch_error"]
         items = [f"({e2.cq_op(op)}, {e2.OUTC[oc]}, {e2.cq_dump(d)})" for op, oc, _, d in tr]
-        v = common.eval_terms(ctx, "dbg", e2.HEADER, [f"first_bad 0 (init_st 3) {common.coq_list(items)}"])
+        v = common.eval_terms(ctx, "dbg", e2.HEADER, [f"first_bad_t 0 (init_st 3) {common.coq_list(items)}"])
         print("first_bad:", v)
         m = re.search(r"Some (\d+)", v[0] or "")
         if m:
@@ -52,8 +52,8 @@ def main():
             for j, t in enumerate(tr[:k + 1]):
                 print(j, t[0], t[1], t[2][:100])
             vals = common.eval_terms(ctx, "dbg2", e2.HEADER, [
-                f"state_at 3 {common.coq_list([e2.cq_op(t[0]) for t in tr[:k+1]])}",
-                f"result_tag 3 {ops} ({e2.cq_op(tr[k][0])})"])
+                f"state_at_t 3 {common.coq_list([e2.cq_op(t[0]) for t in tr[:k+1]])}",
+                f"result_tag_t 3 {ops} ({e2.cq_op(tr[k][0])})"])
             print("MODEL :", decode(vals[0]))
             print("TAG   :", vals[1])
             print("IMPL  :", tr[k][3])
